@@ -163,7 +163,7 @@ def model_root(rt, order, forms, tag="root"):
 def graphs(names, rng, tier):
     """Edge sets over `names` (self loops included)."""
     pairs = [(a, b) for a in names for b in names]
-    if len(names) <= 3:
+    if len(names) <= 3 or tier != "quick":      # thorough: all 65 536 edge sets on four modules as well
         for mask in range(1 << len(pairs)):
             yield [p for i, p in enumerate(pairs) if mask >> i & 1]
     else:
@@ -372,12 +372,12 @@ def _shard(shard, n, tier, seed):
                 rep["violations"].append({"key": "modules:%s" % sha(repr(case["files"])), "summary": "module graph on %d modules: %s" % (len(mods), "; ".join(problems)[:300]), "case": case})
             if not rep["samples"] and len(mods) == 3:
                 rep["samples"].append({"modules": [(m.name, m.kind, [x[0] for x in m.deps], m.fail) for m in mods], "root_order": order, "settings": settings})
-        for h in range(shard, 600 if tier == "quick" else 6000, n):
+        for h in range(shard, 600 if tier == "quick" else 30000, n):
             problems, case = run_history(w, base, h, random.Random(seed * 1000003 + h))
             rep["histories"] += 1
             if problems:
                 rep["violations"].append({"key": "module-history:%s" % sha(repr(case)), "summary": "re-import history: %s" % "; ".join(problems)[:300], "case": case})
-        for h in range(shard, 400 if tier == "quick" else 6000, n):
+        for h in range(shard, 400 if tier == "quick" else 30000, n):
             problems, case = run_names(w, base, h, random.Random(seed * 1000033 + h))
             rep["name_cases"] = rep.get("name_cases", 0) + 1
             if problems:
@@ -420,10 +420,10 @@ def run(tier, seed):
     cov["witnesses_replayed"] = 1
     shutil.rmtree(d, ignore_errors=True)
     w.close()
-    cov["rule"] = ("all edge sets (self loops included) on 1, 2 and 3 modules%s, seeded edge sets on %s modules; per graph seeded module kinds (file / directory / both), import form and guard per edge, "
+    cov["rule"] = ("all edge sets (self loops included) on 1, 2 and 3 modules%s; per graph seeded module kinds (file / directory / both), import form and guard per edge, "
                    "at most one failing module (top level / @test / @main), optional @test and @main, root import order with repeats and a missing module, run_import_tests and export_top_level_ids; the root "
                    "imports each module inside its own function under try. Compared: the complete marker trace (top-start / ok / err / top-end / test / main), the imported values (exported value, never the "
                    "local reassignment; directory modules see their own directory's files, not the decoys), the host's exports map. histories: one runtime, three scripts over three modules: imports while one module fails (flag in the prelude), "
-                   "flag cleared and import again (the failed module and its failed importers run again, completely; succeeded ones do not), third script (nothing runs again)." % ("", "4"))
+                   "flag cleared and import again (the failed module and its failed importers run again, completely; succeeded ones do not), third script (nothing runs again)." % (", 3 000 seeded edge sets on 4 modules" if tier == "quick" else " and all 65 536 edge sets on 4 modules",))
     return chk.finish(cov, assumptions=["imports sit in function scopes of their own: repeating `import m` in one scope after a failure is finding F-M1 (witness replay)",
                                          "module files are written below /verif/scratch/c18 and removed after each case"])
